@@ -155,8 +155,7 @@ def _job(job):
         frag = lines[m["a"] - 1:m["z"]]
         tl3, dec3, cr3, tx3 = docrender.decorate(frag, lang, rnd, pick, tags_entry=(m["e"] == "tags"))
         t3 = u"\n".join(tl3)
-        if m["e"] != "tags":
-            t3 += rnd.choice([u"", u"\n"])
+        t3 += rnd.choice([u"", u"\n"])
         emit("fragment", m["e"], t3, dec3, cr3, tx3, False)
     # (d) ModelDescriptor round trip on what parse_feature returned
     if sweep is None:
@@ -285,7 +284,7 @@ def run(chk):
     chk.impl_traces = len(rows)
     chk.evaluations = sum(len(row["elems"]) + len(row["tags"]) for row in rows)
     skipped = sum(len(res.by_tag("SKIP")) for mname, c, res in chk.tlc_runs if mname == "GherkinDoc_Trace")
-    chk.divergences = len(verdicts)          # rows whose observed model differs from the reference (each is also a verdict)
+    chk.divergences = sum(len(res.by_tag("DIV")) for mname, c, res in chk.tlc_runs if mname == "GherkinDoc_Trace")
     byid = {row["id"]: row for row in rows}
     vs_all = []
     for i, vs in verdicts.items():
@@ -331,11 +330,12 @@ def run(chk):
     chk.extra["rows_not_judged_fragment_not_standalone"] = skipped
     chk.assumptions = ["payload texts are chosen so that no keyword of the document's language reads them as anything but free text",
                        "one argument (table or doc-string) per step; doc-string lines carry no trailing blanks; no tabs inside doc-string indentation",
-                       "line numbers of tags returned by parse_tags() are not judged (the helper has no document context)",
                        "'*' never opens a statement (the statement says nothing about its type there); And/But open one only below a background with steps",
                        "describe_table / describe_docstring: cells with backslash or newline and doc-strings containing \\\"\\\"\\\" are not judged "
                        "(the renderer escapes them, the parser has no unescaping; outside the statement)",
-                       "languages without '* ' (en-tx, sl): '*' lines are written with an And alias"]
+                       "languages without '* ' (en-tx, sl): '*' lines are written with an And alias",
+                       "keyword attributes are compared case-insensitively (the parser matches step keywords case-insensitively and "
+                       "reports its table's alias: ht 'Sipoze Ke' comes back as 'Sipoze ke')"]
 
 
 def replay(chk, payload):
